@@ -66,6 +66,13 @@ static void setG(const int *d, vcase *c)
     c->nrhs = 1 + (d[0] % 3 == 0); c->rhs = d[0] % 5; c->permid = -2;    /* MY_PERMC: reverse order */
 }
 #define N_G(nn) ((nn) * (9 * G_NDEV + G_NRND))
+/* fam H: orders 12 and 16 with tuning 15 (row block 3 > column block 1, panel 3, maxsuper 4): the per-panel-column stride of the 2-D update's scratch vector
+ * (maxsuper + rowblk) times the panel width exceeds n, so the scratch vector is used beyond its first n entries */
+static void setH(const int *d, vcase *c)
+{
+    int per = 9 * G_NDEV + G_NRND; int e[7] = { d[0] + per, 0, (int[]){ 0, 3, 2 }[d[1]], 0, d[2], 0, d[3] }; setG(e, c); set_tune(c, 15);
+}
+#define FAM_H { "n in {12,16} x (BASE+24 deviations, 120 generated patterns) x V1 x {NATURAL,COLAMD,MMD_AT+A} x sym2 x tune(3,1,4,3,1,1,3) x type4", 4, { N_G(2), 3, 2, 4 }, setH }
 static const int TM[] = { 2, 3, 3, 4, 4, 5, 5 }, TN[] = { 1, 1, 2, 2, 3, 2, 3 };
 static long tall_off[8]; static long tall_total(void) { long s = 0; for (int k = 0; k < 7; k++) { tall_off[k] = s; s += 1L << (TM[k] * TN[k]); } tall_off[7] = s; return s; }
 static void setT(const int *d, vcase *c)
@@ -81,6 +88,7 @@ static const family FAM_QUICK[] = {
     { "MY_PERMC all 4! orders x 5041 patterns(diag kept) x {V1,V3} x u{1,.1} x tune2 x type4", 6, { 5041, 2, 24, 2, 2, 4 }, setF },
     { "tall m x n (2x1,3x1,3x2,4x2,4x3,5x2,5x3, all patterns) through xgstrf x {V1,V3} x {NATURAL,COLAMD} x u{1,.1} x tune3 x type4 [C02/C03 only]", 6, { N_TALL, 2, 2, 2, 3, 4 }, setT },
     { "n in {10,12} x (BASE+24 deviations, 120 generated patterns) x {V1,V2,V3} x colperm5 x u{1,.1} x sym2 x tune{default,8,11,12,5} x type4", 7, { N_G(2), 3, 5, 2, 2, 5, 4 }, setG },
+    FAM_H,
 };
 static const family FAM_THOROUGH[] = {
     { "ALL(1..3) x {V0-6,V15} x colperm5 x u3 x sym2 x stor2 x tune3 x type4 x rhs2", 9, { N_ALL123, 8, 5, 3, 2, 2, 3, 4, 2 }, setA },
@@ -91,6 +99,7 @@ static const family FAM_THOROUGH[] = {
     { "ALL(4) x V0-7 x colperm5 x u4 x tune9 x stor2 x {d,z} x sym2", 8, { N_ALL4, 8, 5, 4, 9, 2, 2, 2 }, setE },
     { "tall m x n (all patterns of 7 shapes) through xgstrf x {V1,V3,V7} x {NATURAL,COLAMD,MMD_ATA} x u3 x tune3 x type4 [C02/C03 only]", 6, { N_TALL, 3, 3, 3, 3, 4 }, setT },
     { "n in {10,12,16} x (BASE+24 deviations, 120 generated patterns) x {V1,V2,V3} x colperm5 x u4 x sym2 x tune{default,8,11,12,5} x type4", 7, { N_G(3), 3, 5, 4, 2, 5, 4 }, setG },
+    FAM_H,
 };
 /* other build variants: reduced products (vendor BLAS = the configuration the 24 tests run; 64-bit indices; sanitizers) */
 static void setAs(const int *d, vcase *c)   /* sanitizer builds: ALL(1..3) x {V1,V3} x colperm5 x u{1,.1} x sym2 x stor2 x tune{2,3,5} x type4 */
@@ -108,6 +117,7 @@ static const family FAM_ALTQ[] = {
 static const family FAM_SAN[] = {
     { "ALL(1..3) x {V1,V3} x colperm5 x u{1,.1} x sym2 x stor2 x tune{2,3,5} x type4", 8, { N_ALL123, 2, 5, 2, 2, 2, 3, 4 }, setAs },
     { "BASE(6)+12 deviations x V1 x {NATURAL,COLAMD} x tune{3,5,9} x type4 x stor2", 6, { 9, 13, 2, 3, 4, 2 }, setCs },
+    FAM_H,
 };
 #define NF_(F) ((int)(sizeof F / sizeof *F))
 static const family *pick_std(int tier, int *nf)
